@@ -126,6 +126,9 @@ func init() {
 			{Scenario: "chunk-product(c=0..4,len=0..8,msgs<=2)", Scenarios: chunkProduct([]int{0, 1, 2, 3, 4}, 8, 2), Budgets: bs(B(0, 0))},
 			{Scenario: "chunk/c=2/lens=0,1,2,3,5", Budgets: bs(B(1, 1), B(0, 2)), Split: 1},
 			{Scenario: "chunk/c=1000/lens=4000", Budgets: bs(B(0, 1)), Split: 1},
+			// a receiving application that starts late: more chunks than the
+			// window holds arrive before the first Recv
+			{Scenario: "chunk/c=2/lens=3,2,4,1,5,2/rpre=4s", Budgets: bs(B(0, 1)), Split: 1},
 			{Scenario: "chunkto/c=2/lens=5,3/rt=500ms", Budgets: bs(B(1, 1), B(0, 2)), Split: 1},
 			{Scenario: "chunkto/c=2/N=1/lens=5,3/st=700ms", Budgets: bs(B(1, 1), B(0, 2)), Split: 1},
 		},
